@@ -228,6 +228,40 @@ Definition eigshift_solve (eig : seq (nat * mat * vec)) (sigma : F) (c : nat) (X
   let scale := map (fun x => mkseq (fun i => amul A (vget sinv i) (vget x i)) N) in
   kron_apply q c (scale (scale (kron_apply qt c X))).
 
+(* ---------------------------------------------------------------- Kron + Kronecker-structured diagonal
+   KroneckerProductAddedDiagLinearOperator._solve when the diagonal is a KroneckerProductDiagLinearOperator with one
+   factor per Kronecker factor.  [kron_evals] is also what _kron_diag computes for the diagonal of a Kronecker product
+   of diagonal operators.  Both branches have the shape   s2 * (Q (p * (Q^T (s1 * rhs))))   with Q = kron Q_i:
+     every diagonal factor constant (_constant_kpadlt_constructor):
+         evals = kron (w_i / c_i);  res1 = Diag(evals + 1).solve(Q^T rhs);  res = dlt.solve(Q res1)
+         (Q_i, w_i = eigen-pairs of K_i;  dlt.solve = multiplication by the Kronecker diagonal of the 1 / c_i)
+     general diagonal factors (_symmetrize_kpadlt_constructor):
+         r = dlt.sqrt().inverse() (Kronecker diagonal of the 1 / sqrt d_i);  Q_i, w_i = eigen-pairs of
+         D_i^-1/2 K_i D_i^-1/2;  res = r * (Q (Diag(evals + 1).solve(Q^T (r * rhs))))                       *)
+Definition vscale (N : nat) (sv x : vec) : vec := mkseq (fun i => amul A (vget sv i) (vget x i)) N.
+
+Definition qsq_solve (eig : seq (nat * mat * vec)) (s1 : option vec) (pinv s2 : vec) (c : nat) (X : cols) : cols :=
+  let N := foldr (fun e p => e.1.1 * p) 1 eig in
+  let qt := map (fun e => (e.1.1, matvec e.1.1 e.1.1 (trm e.1.1 e.1.2))) eig in
+  let q := map (fun e => (e.1.1, matvec e.1.1 e.1.1 e.1.2)) eig in
+  let X1 := if s1 is Some sv then map (vscale N sv) X else X in
+  map (vscale N s2) (kron_apply q c (map (vscale N pinv) (kron_apply qt c X1))).
+
+Definition keig_solve (constf : bool) (eig : seq (nat * mat * vec)) (ds : seq vec) (c : nat) (X : cols) : cols :=
+  if constf then
+    let ev := kron_evals (map (fun ed => map (fun w => adiv A w (vget ed.2 0)) ed.1.2) (zip eig ds)) in
+    let pinv := map (fun x => adiv A (a1 A) (aadd A x (a1 A))) ev in
+    let dinv := kron_evals (map (map (fun x => adiv A (a1 A) x)) ds) in
+    qsq_solve eig None pinv dinv c X
+  else
+    let r := kron_evals (map (map (fun x => adiv A (a1 A) (asqrt A x))) ds) in
+    let pinv := map (fun x => adiv A (a1 A) (aadd A x (a1 A))) (kron_evals (map snd eig)) in
+    qsq_solve eig (Some r) pinv r c X.
+
+(* D_i^-1/2 K_i D_i^-1/2 as the library forms it: d.matmul(k).matmul(d), d = Diag(1 / sqrt d_i) *)
+Definition sym_scaled (m : nat) (K : mat) (dv : vec) : mat :=
+  mtab m m (fun i j => amul A (amul A (adiv A (a1 A) (asqrt A (vget dv i))) (get K i j)) (adiv A (a1 A) (asqrt A (vget dv j)))).
+
 (* ---------------------------------------------------------------- block-diagonal layouts
    BlockDiag: _add_batch_dim = view(k, m, c): block b owns rows b*m … b*m+m-1
    BlockInterleaved: view(m, k, c).transpose: block b owns rows r*k + b                      *)
@@ -278,7 +312,11 @@ Record settings := MkSettings {
   cholesky_max_tries : nat            (* cholesky_max_tries *)
 }.
 
-Inductive diag_kind := DConst | DGeneral.
+Inductive diag_kind :=
+| DConst      (* ConstantDiagLinearOperator *)
+| DGeneral    (* any other DiagLinearOperator *)
+| DKConst     (* KroneckerProductDiagLinearOperator, one ConstantDiag factor per Kronecker factor *)
+| DKDiag.     (* KroneckerProductDiagLinearOperator, one (general) Diag factor per Kronecker factor *)
 
 (* what the routing looks at: the operator class, its size, its children's classes *)
 Inductive cls :=
@@ -341,6 +379,7 @@ Inductive method :=
 | MCG (precond : bool) (rank : nat)(* base-class _solve: linear_cg (rank = pivoted-Cholesky rank when preconditioned) *)
 | MKronFactors (ms : seq method)   (* KroneckerProductLinearOperator._solve: every factor's own solve *)
 | MEigShift (sizes : seq nat)      (* KroneckerProductAddedDiag._solve, constant diagonal *)
+| MEigKron (constf : bool) (sizes : seq nat)   (* the same, Kronecker-structured diagonal (constant / general factors) *)
 | MBlocks (k : nat) (m : method)   (* Block*._solve: base_linear_op._solve on the blocked rhs *)
 | MPermT.                          (* permutation: inverse() @ rhs *)
 
@@ -377,6 +416,8 @@ Fixpoint route (c : cls) : method * method :=
       let cs := match dk with
                 | DConst => MEigShift (map csize fs)
                 | DGeneral => MCG (default_preconditioner s) 0         (* _preconditioner overridden: None *)
+                | DKConst => MEigKron true (map csize fs)
+                | DKDiag => MEigKron false (map csize fs)
                 end in (solve_fn c cs cs, cs)
   | CLowRankRootAddedDiag n k => (MWoodbury k, MWoodbury k)
   | CBlockDiag k b => let cs := MBlocks k (route b).2 in (solve_fn c cs cs, cs)
@@ -429,6 +470,7 @@ Fixpoint method_events (s : settings) (obs rbs bb : seq nat) (cc : nat) (c : cls
          | _, _ => [::]
          end) ms fs
   | MEigShift sizes, _ => map (fun n => EEig (obs ++ [:: n; n])) sizes
+  | MEigKron _ sizes, _ => map (fun n => EEig (obs ++ [:: n; n])) sizes      (* one symeig per factor *)
   | MBlocks k m, (CBlockDiag _ b | CBlockInterleaved _ b) =>
       method_events s (obs ++ [:: k]) (rbs ++ [:: k]) (bb ++ [:: k]) cc b m
   | MTriViaBase m, CTriOver b => method_events s obs rbs bb cc b m
@@ -461,6 +503,10 @@ Inductive opd :=
 | DBlockInterleaved (k : nat) (blocks : seq opd)
 | DBatchRepeat (base : opd)
 | DPerm (perm : seq nat)
+| DKronAddedKronDiag (constf : bool) (fs : seq opd) (ds : seq vec) (eig : seq (nat * mat * vec))
+                                               (* Kron(fs) + KroneckerProductDiag(ds): ds = the factor diagonals (constf: every one a
+                                                  ConstantDiagLinearOperator); eig = eigh oracle of the K_i (constf) resp. of the
+                                                  D_i^-1/2 K_i D_i^-1/2 *)
 | DCholOf (upper : bool) (base : opd).         (* CholLinearOperator(base.cholesky(upper=upper), upper=upper): a solve routed
                                                   through the factor operator cholesky() returns for the class of `base` *)
 
@@ -480,12 +526,18 @@ Fixpoint cls_of (o : opd) : cls :=
   | DBlockInterleaved k bs => CBlockInterleaved k (if bs is b :: _ then cls_of b else CGeneric 0)
   | DBatchRepeat b => CBatchRepeat (cls_of b)
   | DPerm p => CPermutation (size p)
+  | DKronAddedKronDiag cf fs _ _ => CKronAddedDiag (map cls_of fs) (if cf then DKConst else DKDiag)
   | DCholOf _ b => CChol (csize (cls_of b))
   end.
 
 (* the matrix an operator denotes (what to_dense() returns; used by the base-class _cholesky) *)
 Definition kron2 (m1 : nat) (M1 : mat) (m2 : nat) (M2 : mat) : mat :=
   mtab (m1 * m2) (m1 * m2) (fun i j => amul A (get A M1 (i %/ m2) (j %/ m2)) (get A M2 (i %% m2) (j %% m2))).
+
+(* Kronecker product of a list of (size, matrix): sizes multiply, entries as in kron2 *)
+Fixpoint kron_mats (ms : seq (nat * mat)) : nat * mat :=
+  if ms is (m1, M1) :: ms' then let: (m2, M2) := kron_mats ms' in (m1 * m2, kron2 m1 M1 m2 M2)
+  else (1, [:: [:: a1 A]]).
 
 Fixpoint dense_of (o : opd) : mat :=
   match o with
@@ -497,14 +549,9 @@ Fixpoint dense_of (o : opd) : mat :=
                              else sumn_ A (fun l => amul A (get A T i l) (get A T j l)) n)
   | DTriDense _ _ T => T
   | DTriOver _ b => dense_of b
-  | DKron fs =>
-      snd ((fix go (fs : seq opd) : nat * mat :=
-         if fs is f :: fs' then let: (m2, M2) := go fs' in let m1 := csize (cls_of f) in (m1 * m2, kron2 m1 (dense_of f) m2 M2)
-         else (1, [:: [:: a1 A]])) fs)
+  | DKron fs => (kron_mats (map (fun f => (csize (cls_of f), dense_of f)) fs)).2
   | DKronAddedDiag fs _ d _ =>
-      let: (N, K) := (fix go (fs : seq opd) : nat * mat :=
-         if fs is f :: fs' then let: (m2, M2) := go fs' in let m1 := csize (cls_of f) in (m1 * m2, kron2 m1 (dense_of f) m2 M2)
-         else (1, [:: [:: a1 A]])) fs in
+      let: (N, K) := kron_mats (map (fun f => (csize (cls_of f), dense_of f)) fs) in
       mtab N N (fun i j => if i == j then aadd A (get A K i j) (vget A d i) else get A K i j)
   | DLowRankRootAddedDiag n k U d =>
       mtab n n (fun i j => let uu := sumn_ A (fun l => amul A (get A U i l) (get A U j l)) k in
@@ -519,6 +566,10 @@ Fixpoint dense_of (o : opd) : mat :=
       mtab (k * m) (k * m) (fun i j => if i %% k == j %% k then get A (nth [::] Ms (i %% k)) (i %/ k) (j %/ k) else a0 A)
   | DBatchRepeat b => dense_of b
   | DPerm p => mtab (size p) (size p) (fun i j => if nth 0 p i == j then a1 A else a0 A)
+  | DKronAddedKronDiag _ fs ds _ =>
+      let: (N, K) := kron_mats (map (fun f => (csize (cls_of f), dense_of f)) fs) in
+      let dfull := kron_evals A ds in                            (* _kron_diag of the factor diagonals *)
+      mtab N N (fun i j => if i == j then aadd A (get A K i j) (vget A dfull i) else get A K i j)
   | DCholOf _ b => dense_of b                   (* R^T R = L L^T = the matrix of the base *)
   end.
 
@@ -605,6 +656,7 @@ Fixpoint run_method (s : settings) (o : opd) (m : method) (X : cols) {struct o} 
                      end) fs ms in
       Some (kron_apply A acts (size X) X)
   | MEigShift _, DKronAddedDiag _ DConst d eig => Some (eigshift_solve A eig (vget A d 0) (size X) X)
+  | MEigKron cf _, DKronAddedKronDiag _ _ ds eig => Some (keig_solve A cf eig ds (size X) X)
   | MBlocks k m', DBlockDiag _ bs =>
       let mm := if bs is b :: _ then osize b else 0 in
       omap (block_solve A false k mm (map (fun b v => ohead (run_method s b m' [:: v])) bs)) X
